@@ -60,7 +60,7 @@ func mutexOfCall(cc *ssa.CallCommon) (lockKey, bool) {
 	if f == nil {
 		return lockKey{}, false
 	}
-	return lockKey{origin(base), f}, true
+	return lockKey{canonBase(base), f}, true
 }
 
 // lockFlow computes, for every instruction of fn, the lock state *before* it.
@@ -366,7 +366,7 @@ func newLockAnalysis(c *Ctx, pkgs []string) *lockAnalysis {
 					if i >= len(cc.Args) {
 						continue
 					}
-					base := origin(cc.Args[i])
+					base := canonBase(cc.Args[i])
 					held := map[*types.Var]int{}
 					if !isGo && !isDefer {
 						for k, mode := range st {
@@ -473,7 +473,7 @@ func (la *lockAnalysis) ruleNoReacquire(r *Rep, rule string) {
 				if gi >= len(cc.Args) {
 					continue
 				}
-				base := origin(cc.Args[gi])
+				base := canonBase(cc.Args[gi])
 				for m := range ms {
 					r.Instance(rule, 1)
 					key := fmt.Sprintf("%s#call:%s", c.FnName(f), c.FnName(g))
@@ -682,7 +682,7 @@ func (la *lockAnalysis) ruleGuarded(r *Rep, rule string, cfg lockCfg) {
 			}
 			key := fmt.Sprintf("%s#%s:%s", c.FnName(f), a.field.Name(), kind)
 			pos := c.Pos(a.ins.Pos())
-			base := origin(a.base)
+			base := canonBase(a.base)
 			if isFreshAlloc(base) {
 				r.Pass(rule, key, pos, "object under construction (fresh allocation, not yet shared)")
 				continue
@@ -910,4 +910,25 @@ func (la *lockAnalysis) ruleSingleSection(r *Rep, rule string, methods []*ssa.Fu
 			}
 		}
 	}
+}
+
+// canonBase maps a pointer value to a canonical representative so that two
+// loads of the same field chain from the same root (d.owner … d.owner) denote
+// the same object. Assumes the intermediate pointer fields are not re-assigned
+// between the accesses compared (they are set at construction in this code).
+var canonReps = map[string]ssa.Value{}
+
+func canonBase(v ssa.Value) ssa.Value {
+	v = origin(v)
+	if u, ok := v.(*ssa.UnOp); ok {
+		if fa, ok := u.X.(*ssa.FieldAddr); ok {
+			key := fmt.Sprintf("%p.%d", canonBase(fa.X), fa.Field)
+			if rep, ok := canonReps[key]; ok {
+				return rep
+			}
+			canonReps[key] = v
+			return v
+		}
+	}
+	return v
 }
